@@ -488,4 +488,133 @@ theorem C03_ideal : C03_full (idealRun ph) := C03_partial (idealRun ph) (idealRu
 
 end results
 
+/-! ### per-atom corollaries, in the vocabulary of the property text -/
+section corollaries
+open EmuVerif.Perm EmuVerif.Props.C03
+variable (ph : Phys d)
+
+/-- relabelling the atoms permutes every per-atom result the same way (occupations: gather by `p`; correlation matrices:
+rows and columns gathered by `p`), keeps the energies, and lists the atoms in the new order -/
+theorem idealRun_relabel (P : Problem ℂ) (p : List ℕ) (hp : IsPerm P.qubitIds.length p) :
+    (idealRun ph (P.reorder p)).occupation = (idealRun ph P).occupation.map (fun l => l.map (fun v => gatherT v p)) ∧
+    (idealRun ph (P.reorder p)).correlation = (idealRun ph P).correlation.map (fun l => l.map (fun m => permuteMatT m p)) ∧
+    (idealRun ph (P.reorder p)).others = (idealRun ph P).others ∧
+    (idealRun ph (P.reorder p)).atomOrder = gatherT P.qubitIds p ∧ (idealRun ph P).atomOrder = P.qubitIds := by
+  have h := (idealRun_equivariant ph P p hp).1
+  rw [h]
+  refine ⟨rfl, rfl, rfl, ?_, ?_⟩
+  · show gatherT (idealRun ph P).atomOrder p = _
+    congr 1
+    unfold idealRun; split_ifs <;> rfl
+  · unfold idealRun; split_ifs <;> rfl
+
+end corollaries
+
+/-! ### what the back-end installs (the C02 model) is the reordered problem -/
+section installed
+open EmuVerif.Perm EmuVerif.Props.C03 EmuVerif.Stepper
+variable {β : Type}
+
+theorem mapOpt_eq_some_map {γ δ : Type} (f : γ → Option δ) (g : γ → δ) :
+    ∀ (l : List γ), (∀ x ∈ l, f x = some (g x)) → mapOpt f l = some (l.map g)
+  | [], _ => rfl
+  | a :: l, h => by
+    unfold mapOpt
+    rw [h a (by simp), mapOpt_eq_some_map f g l (fun x hx => h x (by simp [hx]))]
+    rfl
+
+theorem mapOpt_getElem? (row : List β) :
+    ∀ (l : List ℕ), (∀ i ∈ l, i < row.length) → mapOpt (fun a => row[a]?) l = some (l.filterMap (fun a => row[a]?))
+  | [], _ => rfl
+  | a :: l, h => by
+    have ha : a < row.length := h a (by simp)
+    unfold mapOpt
+    rw [mapOpt_getElem? row l (fun i hi => h i (by simp [hi])), List.getElem?_eq_getElem ha,
+      List.filterMap_cons_some (List.getElem?_eq_getElem ha)]
+
+/-- `row[perm]` of the C02 model is the gather of `Model/Perm.lean` -/
+theorem permuteRow_eq_gatherT (perm : List ℕ) (row : List β) (h : ∀ i ∈ perm, i < row.length) :
+    permuteRow perm row = some (gatherT row perm) := by
+  unfold permuteRow
+  rw [mapOpt_getElem? row perm h, gatherT_eq]
+
+variable {p : List ℕ} {P : Problem ℂ}
+
+/-- **What `MPSBackendImpl.__init__` installs for site order `p`** — in the C02 model: `installedInteraction` (`permute_tensor`),
+`installedDrive .repaired` (the drive columns), `installedString .direct` (`permute_string` on the labels of a user-supplied
+state); these are the objects `C02.same_map` speaks about — **is `Problem.reorder p`**, the problem the equivariance theorem is about. -/
+theorem installed_is_reorder (hp : IsPerm N p) (hw : WF N P) :
+    installedInteraction p P.interaction = some (P.reorder p).interaction ∧
+    (∀ k, installedDrive .repaired p P.drives k = (P.reorder p).drives[k]?) ∧
+    (∀ kv ∈ P.initial, installedString .direct p kv.1 = some (gatherT kv.1 p)) ∧
+    permuteRow p P.badAtoms = some (P.reorder p).badAtoms := by
+  obtain ⟨hdr, hbad, hini, hm, hrows⟩ := hw
+  have hin : ∀ {γ : Type} {xs : List γ}, N ≤ xs.length → ∀ i ∈ p, i < xs.length :=
+    fun hx i hi => lt_of_lt_of_le (hp.2.1 i hi) hx
+  refine ⟨?_, ?_, ?_, permuteRow_eq_gatherT p _ (hin hbad)⟩
+  · unfold installedInteraction
+    rw [permuteRow_eq_gatherT p _ (hin hm)]
+    simp only
+    rw [mapOpt_eq_some_map (permuteRow p) (fun row => gatherT row p)]
+    · rfl
+    · intro row hrow
+      obtain ⟨i, hi, hrow'⟩ := mem_gatherT hrow
+      have hiN : i < N := hp.2.1 i hi
+      have : P.interaction.getD i [] = row := by
+        rw [List.getD_eq_getElem?_getD, hrow']; rfl
+      have hlen := hrows ⟨i, hiN⟩
+      simp only at hlen
+      rw [this] at hlen
+      exact permuteRow_eq_gatherT p row (hin hlen)
+  · intro k
+    unfold installedDrive
+    show _ = (P.drives.map (fun row => gatherT row p))[k]?
+    rw [List.getElem?_map]
+    cases hk : P.drives[k]? with
+    | none => rfl
+    | some row =>
+      simp only [Option.map_some]
+      exact permuteRow_eq_gatherT p row (hin (hdr row (List.mem_of_getElem? hk)))
+  · intro kv hkv
+    exact permuteRow_eq_gatherT p kv.1 (hin (hini kv hkv))
+
+/-- **C03 for the ideal solver with the installed problem**: if `Q` is what the (modelled) constructor installs for the site
+order `p` — identifiers, interaction matrix, every drive row, dark-atom mask and initial-state labels all taken through the
+constructor's own functions — then running the ideal solver on `Q` and un-permuting gives the results of `P` in register order.
+The hypothesis "the relabelled problem is what gets solved" of `C03.Equivariant` is here a consequence of `installed_is_reorder`. -/
+theorem C03_ideal_installed (ph : Phys d) (P Q : Problem ℂ) (p : List ℕ) (hp : IsPerm P.qubitIds.length p)
+    (hw : WF P.qubitIds.length P)
+    (hids : permuteList P.qubitIds p = some Q.qubitIds)
+    (hint : installedInteraction p P.interaction = some Q.interaction)
+    (hdrv : ∀ k, installedDrive .repaired p P.drives k = Q.drives[k]?)
+    (hbad : permuteRow p P.badAtoms = some Q.badAtoms)
+    (hini : mapOpt (fun kv => (installedString .direct p kv.1).map (fun s => (s, kv.2))) P.initial = some Q.initial) :
+    permuteResults p (idealRun ph Q) true = some (idealRun ph P) := by
+  obtain ⟨h1, h2, h3, h4⟩ := installed_is_reorder hp hw
+  have hQ : Q = P.reorder p := by
+    obtain ⟨qi, qint, qd, qb, qini⟩ := Q
+    simp only at hids hint hdrv hbad hini
+    unfold Problem.reorder
+    simp only [Problem.mk.injEq]
+    refine ⟨?_, ?_, ?_, ?_, ?_⟩
+    · rw [permuteList_eq, if_pos (inRange_iff.mpr hp.2.1)] at hids
+      exact (Option.some.inj hids).symm
+    · rw [h1] at hint
+      exact (Option.some.inj hint).symm
+    · apply List.ext_getElem?
+      intro k
+      rw [← hdrv k, h2 k]
+      rfl
+    · rw [h4] at hbad
+      exact (Option.some.inj hbad).symm
+    · rw [mapOpt_eq_some_map _ (fun kv => (gatherT kv.1 p, kv.2))] at hini
+      · exact (Option.some.inj hini).symm
+      · intro kv hkv
+        rw [h3 kv hkv]
+        rfl
+  rw [hQ]
+  exact C03_ideal ph P p hp
+
+end installed
+
 end EmuVerif.Props.C03Ideal
